@@ -350,3 +350,37 @@ def upper_bounds(parents, target, env, mutated=frozenset()):
     for c, holds in path_conditions(parents, target):
         add(c, holds)
     return res
+
+
+def inline_calls(t, fx, depth=2, _seen=(), only=None):
+    """Replace calls of small local functions by the term of their body (parameters substituted by the argument terms), so
+    that a condition moved into a helper function is still read as the condition it computes. `?` and `Ok(..)` are transparent
+    already / made transparent here. Recursion and anything without HIR is left as it is."""
+    if depth <= 0 or not isinstance(t, tuple) or not t:
+        return t
+    if t[0] == "call" and isinstance(t[1], str):
+        name = t[1]
+        args = tuple(inline_calls(a, fx, depth, _seen, only) for a in t[2])
+        cands = [name, F.strip_generics(name)]
+        b = None
+        for c in cands:
+            b = fx.body(c)
+            if b is not None:
+                break
+        if b is not None and b.get("hir") and b["def"] not in _seen and len(b["hir"]["params"]) == len(args) and (only is None or only(b["def"])):
+            n_nodes = sum(1 for _ in F.walk(b["hir"]["value"]))
+            if n_nodes <= 400:
+                env = Env()
+                for p, a in zip(b["hir"]["params"], args):
+                    if p.get("p") == "Bind":
+                        env.map[p["local"]] = a
+                mutated = mutated_locals(b["hir"]["value"])
+                body = term(b["hir"]["value"], env, mutated)
+                # `Ok(x)` -> x (the caller applies `?`, which is transparent)
+                if body[0] == "struct" and str(body[2]).endswith("Ok") and body[3]:
+                    body = body[3][0][1]
+                return inline_calls(body, fx, depth - 1, _seen + (b["def"],), only)
+        return ("call", name, args)
+    if isinstance(t[0], str):
+        return tuple(inline_calls(x, fx, depth, _seen, only) if isinstance(x, tuple) else x for x in t)
+    return tuple(inline_calls(x, fx, depth, _seen, only) if isinstance(x, tuple) else x for x in t)
